@@ -609,6 +609,10 @@ MUTATORS = ["__init__", "append", "update", "remove", "pop", "group", "replace_g
 def check_comutation(ctx, rule: str):
     repo = ctx.repo
     gl = repo.find_class("GroupedList")
+    from .truthiness import check_position_truthiness
+
+    # a mutator that locates the leader itself must not take position 0 for 'not found' (the list would keep the old leader)
+    check_position_truthiness(ctx, "R-position-truthiness", list(gl.methods.values()))
     for name in MUTATORS:
         fi = gl.methods.get(name)
         if fi is None:
